@@ -56,6 +56,7 @@ func (ftp *Fs) ListDir(path string) []os.FileInfo {
 	if err != nil {
 		return []os.FileInfo{}
 	}
+	defer dir.Close()
 
 	list, err := dir.Readdir(-1)
 	if err != nil {
@@ -108,6 +109,7 @@ func (ftp *Fs) GetFile(path string, offset int64) (int64, io.ReadCloser, error) 
 
 	info, err := of.Stat()
 	if err != nil {
+		of.Close()
 		return 0, nil, err
 	}
 
